@@ -5,11 +5,13 @@
 set -u
 cd "$(dirname "$0")/.."
 ./check build || exit 2
-BIN=sim/target/release/pcsim
 RUNS=${RUNS:-4000}
 SEEDS=${SEEDS:-"1 2 3 20261003 987654321"}
 tmp=$(mktemp -d /tmp/pcsim-det.XXXXXX)
 bad=0
+for BIN in sim/target/release/pcsim sim/target-plain/plain/pcsim sim/target-eio04/release/pcsim; do
+[ "$BIN" != sim/target/release/pcsim ] && SEEDS="7"
+echo "== $BIN"
 for id in C05 C08 C09 C10 C11; do
   runs=$RUNS; [ $id = C10 ] && runs=$((RUNS/10)); [ $id = C05 ] && runs=$((RUNS/2))
   for seed in $SEEDS; do
@@ -32,6 +34,7 @@ PY
     done
     echo "$id seed=$seed runs=$runs: $ref"
   done
+done
 done
 rm -rf "$tmp"
 [ $bad -eq 0 ] && echo "determinism: all runs identical across processes and worker counts" || exit 2
